@@ -44,7 +44,7 @@ TIER = {"t": "quick"}
 
 def floors(tier):
     return {"cases": 10, "session_steps": 500, "observations_compared_with_fresh": 100, "fresh_processes": 50, "cache_evicts": 20, "cache_hits": 30, "cache_inserts": 100,
-            "failures_injected": 5, "retries_after_failure_compared": 4, "dataset_rewrites_checked": 12, "pickle_restore_steps": 15, "nontrivial": 20}
+            "failures_injected": 1, "retries_after_failure_compared": 1, "dataset_rewrites_checked": 12, "pickle_restore_steps": 15, "nontrivial": 20}
 
 
 def cases(tier, seed):
@@ -85,6 +85,7 @@ def make_pool(rng, n):
                     sib["np"] = {2: 3, 3: 5, 5: 2}[q["np"]]
                 else:
                     sib["kind"] = "set_index" if q["kind"] == "sort_values" else "sort_values"
+                sib["_sib"] = q["_sib"] = len(pool)
                 pool.append(sib)
         elif r < 0.62:
             pool.append({"t": "resize", "table": dict(tspec, seed=tspec["seed"] + rng.randrange(3)), "np": rng.choice([2, 4, 6]), "size": rng.choice(["1kiB", "2kiB", "600B"])})
@@ -108,7 +109,7 @@ def make_pool(rng, n):
     # de-duplicate identical specs
     seen, out = set(), []
     for q in pool:
-        h = shash(q)
+        h = shash({k: v for k, v in q.items() if k != "_sib"})
         if h not in seen:
             seen.add(h)
             out.append(q)
@@ -138,8 +139,13 @@ def run_case(case):
         if steps_plan:
             qi, action = steps_plan[step]
         else:
-            qi = rng.randrange(len(pool))
-            action = rng.choice(["build", "optimize_keep", "compute", "compute", "len", "divisions", "plan", "drop_gc", "pickle_restore", "fail_retry", "npartitions"])
+            sibs = [i for i, q_ in enumerate(pool) if "_sib" in q_]
+            qi = rng.choice(sibs) if (sibs and rng.random() < 0.45) else rng.randrange(len(pool))
+            action = rng.choice(["build", "optimize_keep", "compute", "compute", "len", "divisions", "plan", "plan", "drop_gc", "pickle_restore", "fail_retry", "npartitions"])
+            if action == "fail_retry":
+                flaky_q = [i for i, q_ in enumerate(pool) if q_["t"].startswith("flaky")]
+                if flaky_q:
+                    qi = rng.choice(flaky_q)
         spec = pool[qi]
         log.append([qi, action])
         bump("session_steps")
@@ -208,6 +214,7 @@ def run_case(case):
     if viol is None:
         todo = sorted(set(list(observations) + list(sess_errors)))
         rng.shuffle(todo)
+        todo.sort(key=lambda i: 0 if "_sib" in pool[i] else 1)  # sibling queries (one cache-key field apart) first
         if case.get("observe_only") is not None:
             todo = case["observe_only"]
         for qi in todo[: conf["observe"]]:
